@@ -23,18 +23,7 @@ theorem UDP_unpack_total (t : UDP) (buf : Bytes) :
       unpackCodes, h, h']
 
 theorem Ethernet_unpack_short (t : Eth) (buf : Bytes) (fcs : Bool) (h : buf.length < 14) :
-    (Eth.unpack t buf fcs).2 = .error .struct := by
-  by_cases h6 : buf.length < 6
-  · rw [Eth.unpack, unpack48_error _ (by simp; omega)]
-  · by_cases h12 : buf.length < 12
-    · rw [Eth.unpack, unpack48_eq _ (by simp; omega)]
-      simp only
-      rw [unpack48_error _ (by simp; omega)]
-    · rw [Eth.unpack, unpack48_eq _ (by simp; omega)]
-      simp only
-      rw [unpack48_eq _ (by simp; omega)]
-      have : ¬ (12 + (2 + 0) ≤ buf.length) := by omega
-      simp [structUnpackFrom, Eth_unpack_fmt0, Fmt.size, codesSize, Code.size, this]
+    (Eth.unpack t buf fcs).2 = .error .struct := Eth_unpack_short t buf fcs h
 
 theorem Ethernet_unpack_total (t : Eth) (buf : Bytes) (fcs : Bool) :
     (Eth.unpack t buf fcs).2 = .ok () ∨ (Eth.unpack t buf fcs).2 = .error .struct ∨
